@@ -632,7 +632,13 @@ func (c *Ctx) evalCall(env *CEnv, e *ast.CallExpr) CVal {
 			r := refOf(c.evalExpr(env, e.Args[0]))
 			i := c.toBV64(c.evalExpr(env, e.Args[1]))
 			sid := c.ghostComp(env, "sid", r, "Int")
-			return CVal{V: Sc{fmt.Sprintf("(select (select %s %s) %s)", c.memGet(env.state(), "uint8", BV8), sid, i), BV8}, T: tUint8}
+			// stream arrays (ids 1..4095) are immutable: always read them in the entry memory, so that the value does
+			// not depend on which havocs (callbacks, unknown calls) lie between two mentions of the same byte
+			ms := env.state()
+			if c.entryState != nil {
+				ms = c.entryState
+			}
+			return CVal{V: Sc{fmt.Sprintf("(select (select %s %s) %s)", c.memGet(ms, "uint8", BV8), sid, i), BV8}, T: tUint8}
 		case "arr":
 			v := c.evalExpr(env, e.Args[0])
 			s, ok := v.V.(SliceV)
@@ -775,6 +781,21 @@ func (c *Ctx) evalCall(env *CEnv, e *ast.CallExpr) CVal {
 			return CVal{V: SliceV{sid, o, n, n, tUint8}, T: types.NewSlice(tUint8)}
 		case "fresh":
 			v := c.evalExpr(env, e.Args[0])
+			if env.topBefore != "" && c.noName == 0 {
+				// an object a callee may have allocated for us: function-private as far as loop frames are concerned
+				// (exempting a location from a loop frame invariant only weakens the invariant; the frame checked at
+				// function exit is not affected)
+				r := refOf(v)
+				dup := false
+				for _, x := range c.localObjs {
+					if x == r {
+						dup = true
+					}
+				}
+				if !dup {
+					c.localObjs = append(c.localObjs, r)
+				}
+			}
 			tb := env.topBefore
 			if tb == "" {
 				tb = "top0"
